@@ -149,3 +149,13 @@ reg('C10', 'fault_enumeration',
     'record_number == k and binary_context_data == prefix + raw bytes of record k, and "Error detected in record k" printed by '
     'mci_ipm_to_csv run in-process on the same file.',
     'Trusts vmon/ref/codec.py and vmon/ref/blocking.py to build files and expected dicts.')
+
+reg('C06', 'exploration',
+    'runtime monitor: real IpmWriter/IpmReader round trips compared with reference framing and the C01 relation; instance isolation observed by comparing each instance\'s step-by-step observables in seeded interleavings and under 8 threads with its solo run',
+    'Lists of 1..300 (thorough 600) heterogeneous messages, records up to the 6 000-byte maximum, latin_1 / cp500 / cp037 (+ seeded '
+    'codecs), VBS and 1014, packaged / variant / generated configurations, three writer APIs: file bytes equal the reference '
+    'framing of the reference encodings, and the read-back list satisfies the C01 relation element-wise. Isolation: 2..4 reader '
+    'and writer programs (some readers hit an injected fault) driven under seeded schedules at operation granularity, and 8 '
+    'threads with a 1 microsecond switch interval; each instance\'s trace (records, record_number, last_record, error context, '
+    'file bytes) must equal its solo trace. The run is inconclusive unless thread alternations were actually observed.',
+    'Trusts vmon/ref/codec.py and vmon/ref/blocking.py. Each thread owns its files and message objects. Per-thread step counters.')
